@@ -89,6 +89,19 @@ PROPS['C13'] = {
     'trusted': UNIT_TRUST + SEQ_TRUST[1:],
 }
 
+CONC_TRUST = ["translator /verif/tools/gen: skeleton extraction (ordered sync/atomic, mutex and executor operations with branch structure) from the Go AST",
+              "modelling assumptions: sync/atomic operations are sequentially consistent single steps, sync.Mutex gives mutual exclusion, every started goroutine eventually runs, "
+              "code between two shared operations of a thread touches only thread-local or lock-protected data",
+              "CONC runs use the real Go scheduler: they sample schedules, they do not enumerate them"]
+
+PROPS['C14'] = {
+    'modules': ['OtterVerif.Props.C14'],
+    'engines': [{'kind': 'unit', 'name': 'concdrain', 'hcmd': 'conc-drain', 'dcmd': 'concdrain', 'quick': 48, 'thorough': 2000, 'chunk': 4, 'args': []}],
+    'rule': 'CONC-drain: rounds of concurrent writers (disjoint keys) with InvalidateAll / Hottest / Coldest / GetMaximum / read callers on a size-bounded cache with the default executor; after all calls returned and the '
+            'cache-started goroutines settled, without any further cache call: drainStatus idle, write buffer empty, OnDeletion count = atomic count, size <= maximum. distinct = distinct transcripts with >= 10 quiescent points',
+    'trusted': CONC_TRUST,
+}
+
 for _p in PROPS.values():
     _p.setdefault('rule', SEQ_RULE)
     _p.setdefault('trusted', SEQ_TRUST)
